@@ -128,7 +128,8 @@ def ensure_makefile() -> None:
     """_CoqProject lists every .v file present under coq/ (regenerated when the set
     changes), so a new model/proof file needs no registration."""
     files = []
-    for root, _, fs in os.walk(COQ):
+    for root, dirs, fs in os.walk(COQ):
+        dirs[:] = [d for d in dirs if not d.startswith(".")]
         for f in fs:
             if f.endswith(".v"):
                 files.append(os.path.relpath(os.path.join(root, f), COQ))
@@ -293,7 +294,54 @@ def run_model(cases: list[Any], nproc: int = 8, driver: str = "core") -> list[An
     missing = [i for i, r in enumerate(results) if r is None]
     if missing:
         raise BuildError("model driver produced no result", f"cases {missing[:5]}")
+    if CROSS["enabled"]:
+        _crosscheck(driver, cases, results)
     return results
+
+
+# ------------------------------------------------------------------------------------
+# extraction cross-check (thorough tier): the kernel's vm_compute evaluates the Gallina model on
+# a sample of the very cases the OCaml driver ran and must print the same results
+# ------------------------------------------------------------------------------------
+CROSS: dict = {"enabled": False, "checked": 0, "failed": [], "per_call": 25, "rng": random.Random(12345)}
+
+
+def _sx_coq(x: Any) -> str:
+    if isinstance(x, bool):
+        return "(A %d)" % (1 if x else 0)
+    if isinstance(x, int):
+        return "(A %d)" % x
+    return "(L [" + "; ".join(_sx_coq(y) for y in x) + "])"
+
+
+def _crosscheck(driver: str, cases: list, results: list) -> None:
+    cap = driver[0].upper() + driver[1:]
+    with open(os.path.join(COQ, "Extract", f"Extract{cap}.v")) as f:
+        src = f.read()
+    m1 = re.search(r"From HT Require Import ([\w.]+)\s*\.", src)
+    m2 = re.search(r'Extraction\s+"[^"]+"\s+(\w+)\s*\.', src)
+    if not (m1 and m2):
+        return
+    idx = [i for i in range(len(cases)) if not isinstance(results[i], tuple)
+           and len(sx_text(cases[i])) + len(sx_text(results[i])) < 6000]
+    if not idx:
+        return
+    idx = CROSS["rng"].sample(idx, min(CROSS["per_call"], len(idx)))
+    body = ";\n  ".join(f"sx_eqb ({m2.group(1)} {_sx_coq(cases[i])}) {_sx_coq(results[i])}" for i in idx)
+    text = (f"From HT Require Import Model.Str Model.Sx {m1.group(1)}.\nOpen Scope N_scope.\n"
+            f"Definition checks : list bool :=\n [{body}].\n"
+            "Eval vm_compute in (forallb (fun b => b) checks, length checks).\n")
+    d = os.path.join(COQ, ".crosscheck")
+    os.makedirs(d, exist_ok=True)
+    path = os.path.join(d, f"Cross_{driver}.v")
+    with Lock():
+        with open(path, "w") as f:
+            f.write(text)
+        rc, out = _run(["coqc", "-q", "-Q", ".", "HT", path], COQ, 900)
+    ok = rc == 0 and re.search(r"=\s*\(true,\s*%d" % len(idx), out.replace("\n", " ")) is not None
+    CROSS["checked"] += len(idx)
+    if not ok:
+        CROSS["failed"].append({"driver": driver, "output": out[-600:], "cases": [cases[i] for i in idx][:3]})
 
 
 # ------------------------------------------------------------------------------------
@@ -325,6 +373,8 @@ class Ctx:
         self.histogram: dict[str, int] = {}
         self.corr_cases = 0
         self.checker_cmd = ""
+        CROSS["enabled"] = (tier == "thorough") or os.environ.get("VERIF_CROSSCHECK") == "1"
+        CROSS["rng"] = random.Random(seed + 777)
         with open(os.path.join(VERIF, "known_findings.json"), encoding="utf-8") as f:
             self.known = [k for k in json.load(f)["findings"] if k["property"] == prop]
 
@@ -405,6 +455,11 @@ class Ctx:
 
     # -- finish ---------------------------------------------------------------------
     def finish(self) -> int:
+        if CROSS["checked"]:
+            self.obligation(f"extraction cross-check: {CROSS['checked']} sampled cases evaluated by vm_compute in the "
+                            "kernel give what the extracted OCaml model printed", not CROSS["failed"])
+            if CROSS["failed"]:
+                self.extra["disagree_extraction"] = CROSS["failed"][:2]
         os.makedirs(os.path.join(VERIF, "evidence"), exist_ok=True)
         # replays of runs against another tree (VERIF_REPO) are kept apart from those against /repo
         rdir = os.path.join(VERIF, "replays") if os.path.realpath(REPO) == "/repo" \
